@@ -40,10 +40,17 @@ Record ncase := mk_ncase {
 Definition old_ok (dflt a : nat) (old : option nat) : bool :=
   match old with Some l => Nat.eqb l a | None => Nat.eqb a dflt end.
 
+(** the segments of the URL (after base path and prefix) as the generator produced them *)
+Definition ncase_segs (c : ncase) : list str := render (nc_a c) (nc_inst c).
+
+(** domain of the first-match specification: a well-formed URL of locale [a] in any spelling
+    (repeated / trailing slashes allowed); the table may have overlapping routes, the path may match
+    none *)
 Definition ncase_dom (c : ncase) : bool :=
-  valid_b (nc_names c) (nc_dflt c) (nc_atab c) (nc_a c) (nc_b c) (nc_inst c)
+  valid_url_b (nc_names c) (nc_dflt c) (nc_atab c) (nc_a c) (nc_b c) (ncase_segs c)
   && base_ok_b (nc_base c) (nc_bsegs c)
-  && str_eqb (nc_path c) (url_path (nc_names c) (nc_dflt c) (nc_bsegs c) (nc_a c) (nc_inst c))
+  && list_eqb str_eqb (path_segments (nc_path c))
+       (nc_bsegs c ++ prefix_of (nc_names c) (nc_dflt c) (nc_a c) ++ ncase_segs c)
   && old_ok (nc_dflt c) (nc_a c) (nc_old c).
 
 Definition ncase_model (c : ncase) : res str :=
@@ -53,9 +60,29 @@ Definition ncase_model (c : ncase) : res str :=
 Definition check_n (c : ncase) : N :=
   let agree := res_eqb str_eqb (ncase_model c) (nc_impl c) in
   if ncase_dom c then
-    if spec_C14 (nc_names c) (nc_dflt c) (nc_bsegs c) (nc_inst c) (nc_search c) (nc_hash c) (nc_b c) (nc_impl c)
+    if spec_first_match (nc_names c) (nc_dflt c) (nc_bsegs c) (nc_atab c) (nc_a c) (nc_b c) (ncase_segs c)
+         (nc_search c) (nc_hash c) (nc_impl c)
     then (if agree then 0 else 2) else 3
   else (if agree then 1 else 2).
+
+(** how the source path reads against the table: 0 no route matches, 1 exactly one reading,
+    2 several readings and the generator's is the first, 3 several and another one is first *)
+Definition nclass (c : ncase) : N :=
+  match flat_map (fun r => parses (length (nc_names c)) (nc_a c) r (ncase_segs c)) (nc_atab c) with
+  | [] => 0
+  | [_] => 1
+  | i :: _ => if list_eqb iseg_eqb i (nc_inst c) then 2 else 3
+  end.
+(** does the round trip hypothesis hold (the image's first reading is the same reading)? 1 yes, 0 no *)
+Definition nround (c : ncase) : N :=
+  let n := length (nc_names c) in
+  match first_parse n (nc_a c) (nc_atab c) (ncase_segs c) with
+  | Some i => match first_parse n (nc_b c) (nc_atab c) (render (nc_b c) i) with
+              | Some i' => if list_eqb iseg_eqb i i' then 1 else 0
+              | None => 0
+              end
+  | None => 0
+  end.
 
 (** the same with the pre-repair model: used only to show which algorithm the implementation follows *)
 Definition check_n_old (c : ncase) : N :=
@@ -84,14 +111,23 @@ Record hcase := mk_hcase {
 
 Definition no_qh (s : str) : bool := forallb (fun c => negb (c =? qmark) && negb (c =? hashc)) s.
 
+Fixpoint nodup_b (l : list str) : bool :=
+  match l with [] => true | x :: r => negb (existsb (str_eqb x) r) && nodup_b r end.
+
+Definition hcase_segs (c : hcase) : list str := render (hc_a c) (hc_inst c).
+Definition hcase_expected (c : hcase) : list str :=
+  map (fun ls' => render_path (hc_bsegs c ++ prefix_of (hc_names c) (hc_dflt c) (fst ls') ++ snd ls'))
+      (expected_history (length (hc_names c)) (hc_atab c) (hc_a c) (hcase_segs c) (hc_ls c)).
+
 Definition hcase_dom (c : hcase) : bool :=
-  names_ok (hc_names c) && atab_ok (length (hc_names c)) (hc_atab c)
-  && forallb (fun l => valid_at_b (hc_names c) (hc_dflt c) (hc_atab c) l (hc_inst c)) (hc_a c :: hc_ls c)
+  hist_valid_b (hc_names c) (hc_dflt c) (hc_atab c) (hc_a c) (hcase_segs c) (hc_ls c)
   && base_ok_b (hc_base c) (hc_bsegs c)
-  && str_eqb (hc_path c) (url_path (hc_names c) (hc_dflt c) (hc_bsegs c) (hc_a c) (hc_inst c))
+  && list_eqb str_eqb (path_segments (hc_path c))
+       (hc_bsegs c ++ prefix_of (hc_names c) (hc_dflt c) (hc_a c) ++ hcase_segs c)
+  && (negb (hc_by_path c) || nodup_b (hc_names c))
   (* the harness re-parses every URL like a browser: nothing but the query may contain '?' and
      nothing but the fragment '#' *)
-  && forallb (fun l => no_qh (url_path (hc_names c) (hc_dflt c) (hc_bsegs c) l (hc_inst c))) (hc_a c :: hc_ls c)
+  && forallb no_qh (hc_path c :: hcase_expected c)
   && no_qh (hc_base c) && forallb (fun c' => negb (c' =? hashc)) (hc_search c).
 
 Definition hcase_model (c : hcase) : res (list str) :=
@@ -103,9 +139,7 @@ Definition hcase_model (c : hcase) : res (list str) :=
 
 Definition hspec (c : hcase) : bool :=
   match hc_impl c with
-  | Ok us => list_eqb str_eqb us
-               (map (fun l => url_path (hc_names c) (hc_dflt c) (hc_bsegs c) l (hc_inst c)
-                              ++ url_suffix (hc_search c) (hc_hash c)) (hc_ls c))
+  | Ok us => list_eqb str_eqb us (map (fun p => p ++ url_suffix (hc_search c) (hc_hash c)) (hcase_expected c))
   | Panic _ => false
   end.
 
